@@ -28,6 +28,8 @@ const prelude = `
 (export 'twice)
 (defun helper (x) (* x 2))
 (defun twice (x) (helper x))
+(defun fail-early (x) (helper x) (error 'early x) (helper x))
+(defmacro mfail (x) (helper 1) (error 'early-macro) (quasiquote (helper (unquote x))))
 (in-package 'user)
 `
 
@@ -49,6 +51,7 @@ const battery = `
   (labels ([f (n) (if (<= n 0) 'done (g (- n 1)))] [g (n) (f n)]) (f 9))
   (ignore-errors (rethrow))
   (list (ignore-errors v0) (ignore-errors v1) (ignore-errors v2) (ignore-errors v3))
+  (progn (set 'b-marker 1) (list b-marker (ignore-errors user:b-marker)))
   (nest 5 (lambda () 'bottom))
   (deep 40) (spin 300) (mloop 20))
 `
@@ -72,7 +75,7 @@ type History struct {
 
 var failKinds = []string{"none", "none", "error", "error-in-handler", "error-in-handler-handler", "rethrow-in-handler", "rethrow-outside",
 	"unbound", "arity", "phys", "nesting", "tail", "macro", "host-panic", "host-panic-in-handler", "host-panic-in-macro", "load-fail",
-	"ignore-then-fail", "set-unbound", "bad-call-head"}
+	"ignore-then-fail", "set-unbound", "bad-call-head", "go-handler-panics", "cross-package-early-fail", "cross-package-early-fail", "cross-package-macro-fail"}
 
 func genHistory() *rapid.Generator[History] {
 	act := rapid.Custom(func(t *rapid.T) Action {
@@ -135,6 +138,12 @@ func failForm(kind string) string {
 		return "(set! never-bound 1)"
 	case "bad-call-head":
 		return "(1 2 3)"
+	case "go-handler-panics":
+		return "(handler-bind ((boom host-panic-handler)) (error 'boom 1))"
+	case "cross-package-early-fail":
+		return "(lib:fail-early 3)"
+	case "cross-package-macro-fail":
+		return "(lib:mfail 3)"
 	}
 	return "0"
 }
@@ -283,7 +292,7 @@ func checkHistory(h History, c *vcommon.Ctx) *vcommon.Failure {
 			if a.Depth >= 2 {
 				failedDeep = true
 			}
-			if lisp.IsInternalPanic(res) && !strings.HasPrefix(a.Fail, "host-panic") {
+			if lisp.IsInternalPanic(res) && !strings.Contains(a.Fail, "panic") {
 				return vcommon.Failf("internal-panic", "unexpected internal panic: %v\n%s", (*lisp.ErrorVal)(res).ErrorMessage(), log.String())
 			}
 		}
